@@ -120,7 +120,7 @@ pub enum PairClass {
 
 /// default classification from the output's label and the non-checking profile's `overflowing` sibling
 pub fn class_by_label(label: &str, rel: &[(String, Out)]) -> PairClass {
-    let plain = label == "plain" || label.starts_with("ref") || label.starts_with("assign") || label.ends_with(":plain");
+    let plain = label == "plain" || label == "ref" || label.starts_with("ref&") || label.starts_with("refv") || label.starts_with("assign") || label.ends_with(":plain");
     if !plain {
         return PairClass::NeverPanic;
     }
@@ -253,7 +253,7 @@ impl<'a, E: Engine> Engine for PairEngine<'a, E> {
                 }
                 ev.fails.push(Fail { label: label.to_string(), got: format!("checking profile: {}", a.show()), want });
             }
-            if let Out::F(_, true) = b {
+            if let (Out::F(_, true), true) = (b, label.contains("overflowing")) {
                 ev.class("overflow-flag-set");
                 ev.nontrivial = true;
             }
@@ -288,6 +288,7 @@ fn leak_class(g: &str) -> &'static str {
         "C16" => "gen:C16",
         "C17" => "gen:C17",
         "C18" => "gen:C18",
+        "C11m" => "gen:misc(shifts,signum,next_power_of_two,sum,product,bits)",
         _ => "gen:other",
     }
 }
